@@ -194,6 +194,19 @@ def templates():
     U = multi(INT, STR)
     T.append([LOG, ("set", "c", ("mut", U, I(1))), ("assign", "set", V("c"), ("s", "x")), ("set", "d", V("c")), ("assign", "set", V("d"), I(9)),
               ("tuple", [D(V("c")), V("c")])])
+    # a `mut any` cell admits every value - also itself (a one-node cycle) and a structure holding it: `c = v` stores v
+    # whatever v is, every alias reads it, and the assignment yields it
+    T.append([LOG, ("set", "c", ("mut", ANY, I(0))), ("set", "y", ("assign", "set", V("c"), V("c"))),
+              ("tuple", [("bin", "eq", D(V("c")), V("c")), ("bin", "eq", V("y"), V("c")), ("bin", "eq", D(V("c")), I(0))])])
+    T.append([LOG, ("set", "c", ("mut", ANY, I(7))), ("set", "d", V("c")), ("assign", "set", V("c"), V("d")),
+              ("tuple", [("bin", "eq", D(V("c")), V("c")), ("bin", "eq", D(V("d")), V("c")), ("bin", "eq", D(V("c")), I(7))])])
+    T.append([LOG, ("set", "c", ("mut", ANY, I(7))), ("set", "a", ("array", [V("c"), ("mut", ANY, I(8))])),
+              ("fndecl", "f", [("v", ANY)], ANY, [("return", ("assign", "set", ("at", V("a"), I(0)), V("v")))]),
+              ("set", "y", ("call", V("f"), [V("c")])),
+              ("tuple", [("bin", "eq", V("y"), V("c")), ("bin", "eq", D(V("c")), V("c")), ("bin", "eq", D(("at", V("a"), I(0))), V("c")),
+                         ("bin", "eq", D(V("c")), I(7))])])
+    T.append([LOG, ("set", "c", ("mut", ANY, I(1))), ("set", "e", ("mut", ANY, I(2))), ("assign", "set", V("c"), V("e")), ("assign", "set", V("e"), V("c")),
+              ("tuple", [("bin", "eq", D(V("c")), V("e")), ("bin", "eq", D(V("e")), V("c")), ("bin", "eq", D(V("c")), V("c"))])])
     # captured cell stays shared, captured value does not
     T.append([LOG, ("set", "c", ("mut", INT, I(1))), ("fndecl", "get", [], INT, [("return", D(V("c")))]),
               ("fndecl", "put", [("v", INT)], INT, [("return", ("assign", "set", V("c"), V("v")))]),
@@ -214,6 +227,8 @@ def run(res, tier, seed, broken_model):
             res.violation("a cell reachable from the result holds a value outside its declared type: `%s` -> %s" % (r.src[:300], r.impl[:300]),
                           dict(program=r.src, flags=r.flags, impl=r.impl), dict(oracle="cell-content", root=progprop.root_of(r)))
     repl_histories(res, rnd, 120 if tier == "quick" else 3000, broken_model)
+    from props import c02
+    c02.negative_stream(res, rnd, tier, seed, "C13")
     errs = sum(1 for r in recs if r.ivalue and r.ivalue.startswith("(error"))
     res.count("histories-ending-in-documented-error", errs)
     for r in recs[len(templates()):len(templates()) + 3]:
